@@ -1,6 +1,13 @@
 import Bifrost.Model.Framing
 import Bifrost.Model.Packets
 import Bifrost.Lemmas.Varint
-/-! Helper lemmas for C07–C09 (readAtLeast / readFull over chunked readers, varint prefix). -/
-namespace Bifrost
-end Bifrost
+import Bifrost.Lemmas.Header
+import Bifrost.Lemmas.Packets
+import Bifrost.Lemmas.Conn
+/-! Helper lemmas for C07–C09 (readAtLeast / readFull over chunked readers, varint prefix).
+
+* `Bifrost/Lemmas/Header.lean`  — C07: `readAtLeast`/`readHeader` on the flattened stream,
+  varint prefix facts, `StreamEstablish` round trip.
+* `Bifrost/Lemmas/Packets.lean` — C08: `readFull` on the flattened stream, `rxPump`/`recvMsgs`.
+* `Bifrost/Lemmas/Conn.lean`    — C09: `chop`, `connPump`, `connReads`.
+-/
